@@ -198,12 +198,244 @@ fn variants_ops<const NV: usize>() {
     core::mem::forget(li);
 }
 
+
+// ---- keywords (-u-) and tfields (-t-): ordered maps key -> value list ----
+use crate::xspec::{KV, KMAX, TYMAX};
+
+/// model of `set_*(key, values)`: all arguments validated first (error => no change), `true` dropped
+fn kv_set(kv: &mut KV, key_ok: bool, key: Txt, vals: &[(bool, Txt); 2], nv: usize) -> bool {
+    if !key_ok {
+        return false;
+    }
+    let mut i = 0;
+    while i < 2 {
+        if i < nv && !vals[i].0 {
+            return false;
+        }
+        i += 1;
+    }
+    let at = kv.start_key(key);
+    k::assume(at < KMAX);
+    let mut i = 0;
+    while i < 2 {
+        if i < nv {
+            let _ = kv.add_val(kv.slot_of(&key), vals[i].1);
+        }
+        i += 1;
+    }
+    true
+}
+fn kv_remove(kv: &mut KV, key: &Txt) -> bool {
+    let at = kv.slot_of(key);
+    if at >= KMAX {
+        return false;
+    }
+    // KMAX == 2
+    if at == 0 {
+        kv.keys[0] = kv.keys[1];
+        kv.vals[0] = kv.vals[1];
+        kv.nvals[0] = kv.nvals[1];
+    }
+    kv.nkeys -= 1;
+    true
+}
+fn kv_vals_are<'a>(it: impl ExactSizeIterator<Item = &'a str>, kv: &KV, key: &Txt) -> bool {
+    let at = kv.slot_of(key);
+    if at >= KMAX {
+        return it.len() == 0;
+    }
+    let mut it = it;
+    if it.len() != kv.nvals[at] {
+        return false;
+    }
+    let mut i = 0;
+    while i < TYMAX {
+        if i < kv.nvals[at] {
+            match it.next() {
+                Some(s) => {
+                    if !spec::same_text(s.as_bytes(), &kv.vals[at][i]) {
+                        return false;
+                    }
+                }
+                None => return false,
+            }
+        }
+        i += 1;
+    }
+    true
+}
+
+/// one symbolic keyword operation: set (0..=2 values) / remove / get / clear, key and values fully symbolic
+fn kw_step(u: &mut UnicodeExtensionList, m: &mut UModel) {
+    let op = k::u8();
+    k::assume(op < 4);
+    let key = sym::tok9();
+    sym::note("key", &key);
+    sym::note_val("op", &op);
+    let ki = spec::info(&key);
+    let key_ok = ki.is_ukey();
+    let klow = ki.lower();
+    let before = *m;
+    match op {
+        0 => {
+            let nv = k::u8() as usize;
+            k::assume(nv <= 2);
+            let v0 = sym::tok9();
+            let v1 = sym::tok9();
+            sym::note("v0", &v0);
+            sym::note("v1", &v1);
+            sym::note_val("nv", &nv);
+            let (i0, i1) = (spec::info(&v0), spec::info(&v1));
+            let vals = [(i0.is_utype(), i0.lower()), (i1.is_utype(), i1.lower())];
+            let arr: [&[u8]; 2] = [v0.bytes(), v1.bytes()];
+            let r = u.set_keyword(key.bytes(), &arr[..nv]);
+            let want = kv_set(&mut m.kw, key_ok, klow, &vals, nv);
+            assert!(r.is_ok() == want, "set_keyword succeeds iff key is alphanum alpha and every value alphanum{{3,8}}");
+        }
+        1 => {
+            let r = u.remove_keyword(key.bytes());
+            match r {
+                Ok(b) => {
+                    assert!(key_ok);
+                    assert!(b == kv_remove(&mut m.kw, &klow), "remove_keyword reports whether the key was present");
+                }
+                Err(_) => assert!(!key_ok),
+            }
+        }
+        2 => {
+            let r = u.keyword(key.bytes());
+            match r {
+                Ok(it) => {
+                    assert!(key_ok);
+                    assert!(kv_vals_are(it, &m.kw, &klow), "keyword(k) yields the stored types, or nothing for an absent key");
+                }
+                Err(_) => assert!(!key_ok, "keyword() rejects only malformed keys"),
+            };
+        }
+        _ => {
+            u.clear_keywords();
+            m.kw.nkeys = 0;
+        }
+    }
+    if !key_ok && op < 3 {
+        assert!(m.kw.nkeys == before.kw.nkeys);
+    }
+    assert!(h::ulist_is(u, m), "keyword_keys() sorted, keyword(k) for every key, attributes untouched, is_empty consistent");
+}
+
+fn tf_step(t: &mut TransformExtensionList, m: &mut xspec::TModel) {
+    let op = k::u8();
+    k::assume(op < 4);
+    let key = sym::tok9();
+    sym::note("key", &key);
+    sym::note_val("op", &op);
+    let ki = spec::info(&key);
+    let key_ok = ki.is_tkey();
+    let klow = ki.lower();
+    match op {
+        0 => {
+            let nv = k::u8() as usize;
+            k::assume(nv <= 2);
+            let v0 = sym::tok9();
+            let v1 = sym::tok9();
+            sym::note("v0", &v0);
+            sym::note("v1", &v1);
+            sym::note_val("nv", &nv);
+            let (i0, i1) = (spec::info(&v0), spec::info(&v1));
+            let vals = [(i0.is_utype(), i0.lower()), (i1.is_utype(), i1.lower())];
+            let arr: [&[u8]; 2] = [v0.bytes(), v1.bytes()];
+            let r = t.set_tfield(key.bytes(), &arr[..nv]);
+            let want = kv_set(&mut m.fields, key_ok, klow, &vals, nv);
+            assert!(r.is_ok() == want, "set_tfield succeeds iff key is alpha digit and every value alphanum{{3,8}}");
+        }
+        1 => {
+            let r = t.remove_tfield(key.bytes());
+            match r {
+                Ok(b) => {
+                    assert!(key_ok);
+                    assert!(b == kv_remove(&mut m.fields, &klow), "remove_tfield reports whether the key was present");
+                }
+                Err(_) => assert!(!key_ok),
+            }
+        }
+        2 => {
+            let r = t.tfield(key.bytes());
+            match r {
+                Ok(it) => {
+                    assert!(key_ok);
+                    assert!(kv_vals_are(it, &m.fields, &klow), "tfield(k) yields the stored values, or nothing for an absent key");
+                }
+                Err(_) => assert!(!key_ok, "tfield() rejects only malformed keys"),
+            };
+        }
+        _ => {
+            t.clear_tfields();
+            m.fields.nkeys = 0;
+        }
+    }
+    assert!(h::tlist_is(t, m), "tfield_keys() sorted, tfield(k) for every key, tlang untouched, is_empty consistent");
+}
+
+fn kw_history<const H: usize>() {
+    let mut u = UnicodeExtensionList::default();
+    let mut m = UModel { attrs: [NOTXT; VMAX], nattrs: 0, kw: KV::new() };
+    let mut i = 0;
+    while i < H {
+        kw_step(&mut u, &mut m);
+        i += 1;
+    }
+    cover!(m.kw.nkeys == 1 && m.kw.nvals[0] == 2);
+    core::mem::forget(u);
+}
+fn tf_history<const H: usize>() {
+    let mut t = TransformExtensionList::default();
+    let mut m = xspec::TModel { tlang: None, fields: KV::new() };
+    let mut i = 0;
+    while i < H {
+        tf_step(&mut t, &mut m);
+        i += 1;
+    }
+    cover!(m.fields.nkeys == 1 && m.fields.nvals[0] == 2);
+    core::mem::forget(t);
+}
+
+/// tlang: set / clear with any identifier (<= 1 variant); tfields untouched
+fn tlang_ops() {
+    let mut t = TransformExtensionList::default();
+    let mut m = xspec::TModel { tlang: None, fields: KV::new() };
+    let (li, lm) = sym::any_langid(1);
+    assert!(t.is_empty());
+    let r = t.set_tlang(li);
+    assert!(r.is_ok());
+    m.tlang = Some(lm);
+    assert!(h::tlist_is(&t, &m), "tlang() returns the identifier that was set");
+    if k::bool() {
+        let (li2, lm2) = sym::any_langid(0);
+        assert!(t.set_tlang(li2).is_ok());
+        m.tlang = Some(lm2);
+        assert!(h::tlist_is(&t, &m), "set_tlang replaces");
+    }
+    if k::bool() {
+        t.clear_tlang();
+        m.tlang = None;
+        assert!(h::tlist_is(&t, &m) && t.is_empty(), "clear_tlang: none, extension empty again");
+        assert!(t == TransformExtensionList::default(), "cleared == never set (single representation)");
+    }
+    cover!(t.tlang().is_none());
+    core::mem::forget(t);
+}
+
 proofs! {
 
-[sortt] fn c10_attr_history_2() { attr_history::<2>() }
-[sortt] fn c10_attr_history_3() { attr_history::<3>() }
-[push, sortt] fn c10_tag_history_2() { tag_history::<2>() }
-[push, sortt] fn c10_tag_history_3() { tag_history::<3>() }
+[insrem, sortt] fn c10_attr_history_2() { attr_history::<2>() }
+[insrem, sortt] fn c10_attr_history_3() { attr_history::<3>() }
+[push, insrem, sortt] fn c10_tag_history_2() { tag_history::<2>() }
+[push, insrem, sortt] fn c10_tag_history_3() { tag_history::<3>() }
+[push, sortt] fn c10_kw_history_1() { kw_history::<1>() }
+[push, sortt] fn c10_kw_history_2() { kw_history::<2>() }
+[push, sortt, sortv, boxed] fn c10_tf_history_1() { tf_history::<1>() }
+[push, sortt, sortv, boxed] fn c10_tf_history_2() { tf_history::<2>() }
+[] fn c10_tlang_ops() { tlang_ops() }
 [sortv, boxed, tovec] fn c10_variants_0() { variants_ops::<0>() }
 [sortv, boxed, tovec] fn c10_variants_2() { variants_ops::<2>() }
 [sortv, boxed, tovec] fn c10_variants_3() { variants_ops::<3>() }
